@@ -15,6 +15,7 @@ import (
 	NoKV "github.com/feichai0017/NoKV"
 	"github.com/feichai0017/NoKV/kv"
 	"github.com/feichai0017/NoKV/utils"
+	"github.com/feichai0017/NoKV/vfs"
 
 	"verif/harness/internal/vt"
 )
@@ -30,6 +31,7 @@ type Cfg struct {
 	ValLen   int    `json:"vallen"`   // default expanded value length
 	Sync     bool   `json:"sync"`
 	Detect   bool   `json:"detect"` // conflict detection
+	MemSize  int    `json:"memsize"` // memtable size in bytes (default 8 MiB)
 }
 
 type Op struct {
@@ -86,6 +88,9 @@ var extraHook func(point string, a ...uint64)
 
 // SetExtraHook installs a hook for yield points other than the flush gate.
 func SetExtraHook(h func(point string, a ...uint64)) { extraHook = h }
+
+// SetGated switches the flush gate on or off (off releases parked flushes).
+func SetGated(on bool) { setGated(on) }
 
 func setGated(on bool) {
 	gate.mu.Lock()
@@ -181,6 +186,7 @@ func VerBack(v uint64) int {
 // ---------------------------------------------------------------------- run
 
 type Runner struct {
+	FS   vfs.FS // optional filesystem (fault injection); nil = OS
 	DB   *NoKV.DB
 	Dir  string
 	Cfg  Cfg
@@ -190,10 +196,17 @@ type Runner struct {
 	step int
 }
 
+// Opts returns the options the runner opens the DB with.
+func (r *Runner) Opts() *NoKV.Options { return r.opts() }
+
 func (r *Runner) opts() *NoKV.Options {
 	o := NoKV.NewDefaultOptions()
 	o.WorkDir = r.Dir
 	o.MemTableSize = 8 << 20
+	if r.Cfg.MemSize > 0 {
+		o.MemTableSize = int64(r.Cfg.MemSize)
+	}
+	o.FS = r.FS
 	if r.Cfg.Mem == "art" {
 		o.MemTableEngine = NoKV.MemTableEngineART
 	}
@@ -246,6 +259,9 @@ func (r *Runner) Open() (ok bool) {
 	setGated(true)
 	return true
 }
+
+// WaitFlushIdle waits until no sealed memtable is pending.
+func (r *Runner) WaitFlushIdle() { r.waitFlushIdle() }
 
 func (r *Runner) waitFlushIdle() {
 	deadline := time.Now().Add(30 * time.Second)
